@@ -5,6 +5,7 @@ import (
 	"encoding/hex"
 	"encoding/json"
 	"fmt"
+	"os"
 	"sort"
 	"strings"
 	"sync"
@@ -162,6 +163,9 @@ func (h *History) Canon() []string {
 	}
 	for _, a := range h.API {
 		ls = append(ls, line{a.T, fmt.Sprintf("api %s %s %s %d %s", a.Inst, a.Method, a.Path, a.Code, shortHash(a.Resp))})
+		if verboseBodies {
+			ls = append(ls, line{a.T, "body " + a.Resp})
+		}
 	}
 	for _, e := range h.Events {
 		ls = append(ls, line{e.T, fmt.Sprintf("event %s %s %s", e.Kind, e.Inst, e.Msg)})
@@ -179,7 +183,57 @@ func (h *History) Canon() []string {
 	return out
 }
 
+// verboseBodies adds response bodies to the printed log (debugging aid; VERIF_VERBOSE=2).
+var verboseBodies = os.Getenv("VERIF_VERBOSE") == "2"
+
+// canonBody: the order of elements in the lists of an API response (ids in
+// silencedBy / inhibitedBy / mutedBy, groups with equal labels and receiver,
+// ...) is in places the iteration order of a Go map inside the repository; no
+// listed property orders them, so the log hashes every JSON list as a multiset.
+func canonBody(s string) string {
+	if len(s) < 2 || (s[0] != '[' && s[0] != '{') {
+		return s
+	}
+	var v any
+	if err := json.Unmarshal([]byte(s), &v); err != nil {
+		return s
+	}
+	return canonJSON(v)
+}
+
+func canonJSON(v any) string {
+	switch x := v.(type) {
+	case []any:
+		parts := make([]string, len(x))
+		for i, e := range x {
+			parts[i] = canonJSON(e)
+		}
+		sort.Strings(parts)
+		return "[" + strings.Join(parts, ",") + "]"
+	case map[string]any:
+		keys := make([]string, 0, len(x))
+		for k := range x {
+			keys = append(keys, k)
+		}
+		sort.Strings(keys)
+		var b strings.Builder
+		b.WriteByte('{')
+		for _, k := range keys {
+			b.WriteString(k)
+			b.WriteByte(':')
+			b.WriteString(canonJSON(x[k]))
+			b.WriteByte(',')
+		}
+		b.WriteByte('}')
+		return b.String()
+	default:
+		o, _ := json.Marshal(x)
+		return string(o)
+	}
+}
+
 func shortHash(s string) string {
+	s = canonBody(s)
 	x := sha256.Sum256([]byte(s))
 	return hex.EncodeToString(x[:6])
 }
